@@ -20,6 +20,7 @@ func init() {
 		Assumptions: []string{"math.Abs/Min/Max, time.Time.Sub/Before have their mathematical meaning"},
 		Run:         runC16,
 		Controls: []Control{
+			{Name: "float-operands-swapped", Silent: true, File: "pkg/cmp/cmp.go", Old: "\t\treturn fx == fy\n", New: "\t\treturn fy == fx\n"},
 			{Name: "floats-compared-by-bit-pattern", File: "pkg/cmp/cmp.go", Old: "\t\treturn fx == fy\n", New: "\t\treturn math.Float64bits(fx) == math.Float64bits(fy)\n", Expect: "R16.1"},
 			{Name: "no-duplicates-by-proto-equal", File: "pkg/resource/opt.go", Old: "func WithNoDuplicates() Option {\n\treturn WithMessageEquivalence(cmp.Equal())", New: "func WithNoDuplicates() Option {\n\treturn WithMessageEquivalence(proto.Equal)", Expect: "R16.8"},
 			{Name: "identity-shortcut-by-subtraction", File: "pkg/cmp/number.go", Old: "\t\tif fx == fy || (math.IsNaN(fx) && math.IsNaN(fy)) {", New: "\t\tif fx-fy == 0 || (math.IsNaN(fx) && math.IsNaN(fy)) {", Expect: "R16.6"},
